@@ -943,9 +943,14 @@ func (ex *Exec) selectStmt(fr *Frame, st *State, b *ssa.BasicBlock, i int, x *ss
 		tv := &TupleV{}
 		tv.E = append(tv.E, BVInt(int64(idx), 64, true))
 		tv.E = append(tv.E, ex.freshTerm("recvok", SBool, false))
-		for _, s := range x.States {
+		for si, s := range x.States {
 			if s.Dir == types.RecvOnly {
-				tv.E = append(tv.E, ex.freshVal(st2, s.Chan.Type().Underlying().(*types.Chan).Elem(), "recv"))
+				et := s.Chan.Type().Underlying().(*types.Chan).Elem()
+				rv := ex.freshVal(st2, et, "recv")
+				tv.E = append(tv.E, rv)
+				if si == idx {
+					ex.noteRecv(st2, et, rv)
+				}
 			}
 		}
 		fr2.env[x] = tv
